@@ -136,16 +136,12 @@ theorem implodeLoop_stop (fuel : Nat) (s : Stk) (hs : SmallLen s.xs.length) (sta
     (h : (ct : Int) ≥ max ∨ start + ct ≥ s.xs.length) :
     implodeLoop (fuel + 1) s start ct max tpat = .ok (s, tpat) := by
   have hsm := small_int hs
-  unfold implodeLoop Gen.implode_stop
+  unfold implodeLoop
   rw [ulen_eq s hs]
-  have e1 : wrap64 ((start : Int) + (ct : Int)) = (start : Int) + (ct : Int) := by rw [wrap64_eq] <;> omega
-  simp only [e1]
-  have : (decide ((ct : Int) ≥ max) || decide ((start : Int) + (ct : Int) ≥ (s.xs.length : Int))) = true := by
-    rcases h with h | h
-    · simp [h]
-    · have : (start : Int) + (ct : Int) ≥ (s.xs.length : Int) := by omega
-      simp [this]
-  simp only [this, ↓reduceIte]
+  have l1 : IsLen (start : Int) := isLen_nat (by omega)
+  have l2 : IsLen (ct : Int) := isLen_nat (by omega)
+  have : (max ≤ (ct : Int) ∨ (s.xs.length : Int) ≤ (start : Int) + (ct : Int)) := by omega
+  simp only [GenSem.implode_stop, l1, l2, isLen_nat hsm, decide_eq_true_eq, this, ↓reduceIte]
 
 theorem implodeLoop_nil (fuel : Nat) (s : Stk) (hs : SmallLen s.xs.length) (start ct : Nat) (max : Int)
     (tpat : List Bool) (h1 : (ct : Int) < max) (h2 : start + ct < s.xs.length)
@@ -153,17 +149,14 @@ theorem implodeLoop_nil (fuel : Nat) (s : Stk) (hs : SmallLen s.xs.length) (star
     implodeLoop (fuel + 1) s start ct max tpat = implodeLoop fuel s start ((ct + 1 : Nat) : Int) max tpat := by
   have hsm := small_int hs
   rw [implodeLoop]
-  unfold Gen.implode_stop
   rw [ulen_eq s hs]
   have e1 : wrap64 ((start : Int) + (ct : Int)) = (start : Int) + (ct : Int) := by rw [wrap64_eq] <;> omega
   have e2 : wrap64 ((start : Int) + (ct : Int) + 1) = ((start + ct : Nat) : Int) + 1 := by rw [wrap64_eq] <;> omega
   have e3 : wrap64 ((ct : Int) + 1) = ((ct + 1 : Nat) : Int) := by rw [wrap64_eq] <;> omega
-  simp only [e1, e2, e3]
-  have : (decide ((ct : Int) ≥ max) || decide ((start : Int) + (ct : Int) ≥ (s.xs.length : Int))) = false := by
-    have a : ¬ ((ct : Int) ≥ max) := by omega
-    have b : ¬ ((start : Int) + (ct : Int) ≥ (s.xs.length : Int)) := by omega
-    simp [a, b]
-  simp only [this, Bool.false_eq_true, ↓reduceIte]
+  have l1 : IsLen (start : Int) := isLen_nat (by omega)
+  have l2 : IsLen (ct : Int) := isLen_nat (by omega)
+  have : ¬ (max ≤ (ct : Int) ∨ (s.xs.length : Int) ≤ (start : Int) + (ct : Int)) := by omega
+  simp only [e1, e2, e3, GenSem.implode_stop, l1, l2, isLen_nat hsm, decide_eq_true_eq, this, ↓reduceIte]
   rw [rawGet_succ s _ h2]
   simp only [liftF, bind, Except.bind, hv, ↓reduceIte]
 
@@ -175,17 +168,15 @@ theorem implodeLoop_move (fuel : Nat) (s : Stk) (hs : SmallLen s.xs.length) (sta
         ((start + 1 : Nat) : Int) 0 max (tpat.set (start + ct) true) := by
   have hsm := small_int hs
   rw [implodeLoop]
-  unfold Gen.implode_stop
   rw [ulen_eq s hs]
   have e1 : wrap64 ((start : Int) + (ct : Int)) = ((start + ct : Nat) : Int) := by rw [wrap64_eq] <;> omega
   have e2 : wrap64 (((start + ct : Nat) : Int) + 1) = ((start + ct : Nat) : Int) + 1 := by rw [wrap64_eq] <;> omega
   have e3 : wrap64 ((start : Int) + 1) = (start : Int) + 1 := by rw [wrap64_eq] <;> omega
+  have l1 : IsLen (start : Int) := isLen_nat (by omega)
+  have l2 : IsLen (ct : Int) := isLen_nat (by omega)
+  have : ¬ (max ≤ (ct : Int) ∨ (s.xs.length : Int) ≤ (start : Int) + (ct : Int)) := by omega
+  simp only [GenSem.implode_stop, l1, l2, isLen_nat hsm, decide_eq_true_eq, this, ↓reduceIte]
   simp only [e1, e2, e3]
-  have : (decide ((ct : Int) ≥ max) || decide (((start + ct : Nat) : Int) ≥ (s.xs.length : Int))) = false := by
-    have a : ¬ ((ct : Int) ≥ max) := by omega
-    have b : (start : Int) + (ct : Int) < (s.xs.length : Int) := by omega
-    simp [a, b]
-  simp only [this, Bool.false_eq_true, ↓reduceIte]
   rw [rawGet_succ s _ h2]
   simp only [liftF, bind, Except.bind, hv, Bool.false_eq_true, ↓reduceIte]
   rw [rawSet_succ s start _ (by omega)]
@@ -788,6 +779,23 @@ theorem firstNil_lt_of_any (xs : List Val) (h : xs.any Val.isNil = true) : first
   obtain ⟨pre, r, h1, _, h3⟩ := split_firstNil xs h
   rw [h3, h1]; simp
 
+/-! ## the regenerated guards of `defrag`, by what they mean -/
+
+theorem defrag_go_nat (start : Nat) (max : Int) (h : (start : Int) < 4611686018427387904) :
+    Gen.defrag_go { start := (start : Int), max := max } = decide ((start : Int) < max) := by
+  have hs : -1 ≤ (start : Int) ∧ (start : Int) < 4611686018427387904 := by omega
+  have hne : ¬ ((start : Int) = -1) := by omega
+  simp only [GenSem.defrag_go, hs, ne_eq, hne, not_false_eq_true, true_and]
+
+theorem defrag_go_neg (max : Int) : Gen.defrag_go { start := -1, max := max } = false := by
+  have hs : -1 ≤ (-1 : Int) ∧ (-1 : Int) < 4611686018427387904 := by omega
+  rw [GenSem.defrag_go { start := -1, max := max } hs]
+  simp only [ne_eq, not_true_eq_false, false_and, decide_false]
+
+theorem defrag_trunc_sem (err : Bool) (last : Int) (h : InInt last) :
+    Gen.defrag_trunc { err_nonnil := err, last := last } = decide (err = false ∧ 0 ≤ last) := by
+  simp only [GenSem.defrag_trunc, h, Bool.not_eq_true]
+
 /-- **no nil ⇒ nothing moves**: either nothing is done at all, or only `Err` is cleared -/
 theorem defrag_nonil (s : Stk) (hs : SmallLen s.xs.length) (max : Int) (h : s.xs.any Val.isNil = false) :
     s.defrag max = .ok s ∨ s.defrag max = .ok { s with cfg := { s.cfg with err := none } } := by
@@ -798,12 +806,14 @@ theorem defrag_nonil (s : Stk) (hs : SmallLen s.xs.length) (max : Int) (h : s.xs
   simp only [Nat.lt_irrefl, ↓reduceIte, Nat.zero_add]
   cases he : s.endBit
   · simp only [Bool.false_eq_true, ↓reduceIte]
+    have hgo := defrag_go_nat s.xs.length max (small_int hs)
     by_cases hm : max ≤ (s.xs.length : Int)
-    · left; simp [Gen.defrag_go, hm]
+    · left
+      have : ¬ ((s.xs.length : Int) < max) := by omega
+      simp [hgo, this]
     · right
-      have hgo : Gen.defrag_go { start := (s.xs.length : Int), max := max } = true := by
-        have : ¬ ((s.xs.length : Int) = -1) := by omega
-        simp [Gen.defrag_go, hm, this]
+      have : (s.xs.length : Int) < max := by omega
+      simp only [this, decide_true] at hgo
       rw [hgo]
       simp only [↓reduceIte]
       rw [implode_eq s hs s.xs [] (by simp) (Or.inr (by intro v r h; cases h)) max _ (by simp)]
@@ -812,7 +822,7 @@ theorem defrag_nonil (s : Stk) (hs : SmallLen s.xs.length) (max : Int) (h : s.xs
       | nil =>
         simp only [List.map_nil, List.nil_append, List.length_nil, List.replicate_zero]
         rw [verifyImplode_single]
-        simp [Gen.defrag_trunc]
+        simp [defrag_trunc_sem _ _ (show InInt (-2) by constructor <;> decide)]
       | cons x l =>
         have e : (true :: List.replicate (x :: l).length false) = (true :: List.replicate l.length false) ++ [false] := by
           simp only [List.length_cons, List.cons_append, List.cons.injEq, true_and]
@@ -823,9 +833,9 @@ theorem defrag_nonil (s : Stk) (hs : SmallLen s.xs.length) (max : Int) (h : s.xs
           rw [List.replicate_succ']
         rw [e2, lastOf_false]
         have e3 : wrap64 (-1 - 1) = -2 := by decide
-        simp only [e3, Gen.defrag_trunc]
+        simp only [e3, defrag_trunc_sem _ _ (show InInt (-2) by constructor <;> decide)]
         simp
-  · left; simp [Gen.defrag_go]
+  · left; simp [defrag_go_neg]
 
 /-- the tail of `stack.defrag`: record the error, truncate -/
 def finish (cfg : Cfg) (W : List Val) (last : Int) (err : Option Nat) : Except DErr Stk :=
@@ -859,11 +869,12 @@ theorem defrag_gap (s : Stk) (hs : SmallLen s.xs.length) (max : Int) (pre r : Li
   have hlt : pre.length < s.xs.length := by omega
   rw [firstGap_map, hfn]
   simp only [hlt, ↓reduceIte, Nat.zero_add]
+  have hgo := defrag_go_nat pre.length max (by have := small_int hs; omega)
   by_cases hm : max ≤ (pre.length : Int)
-  · simp [Gen.defrag_go, hm]
-  · have hgo : Gen.defrag_go { start := (pre.length : Int), max := max } = true := by
-      have : ¬ ((pre.length : Int) = -1) := by omega
-      simp [Gen.defrag_go, hm, this]
+  · have : ¬ ((pre.length : Int) < max) := by omega
+    simp [hgo, hm, this]
+  · have : (pre.length : Int) < max := by omega
+    simp only [this, decide_true] at hgo
     simp only [hgo, hm, ↓reduceIte]
     rw [implode_eq s hs pre (Val.nil :: r) hx (Or.inr (by intro v r' h; injection h with h1 _; rw [← h1]; rfl)) max _ (by simp)]
     have hw : walk max pre 0 (Val.nil :: r) (true :: List.replicate s.xs.length false)
@@ -883,10 +894,11 @@ theorem defrag_gap (s : Stk) (hs : SmallLen s.xs.length) (max : Int) (pre r : Li
 theorem implode_last_eq (i L : Nat) (hL : SmallLen L) (hi : i ≤ L) (h1 : 1 ≤ i) :
     Gen.implode_last { len_data := (i : Int) - 1, i := (i : Int), len_tpat := (L : Int) + 1 } = 2 * (i : Int) - 2 - L := by
   have := small_int hL
-  unfold Gen.implode_last
-  simp only
-  have e1 : wrap64 ((i : Int) - 1 + (i : Int)) = 2 * (i : Int) - 1 := by rw [wrap64_eq] <;> omega
-  rw [e1, wrap64_eq (by omega) (by omega)]
+  have h1 : -1 ≤ (i : Int) - 1 ∧ (i : Int) - 1 < 4611686018427387904 := by omega
+  have h2 : IsLen (i : Int) := isLen_nat (by omega)
+  have h3 : IsRawLen ((L : Int) + 1) := by rw [isRawLen_iff]; omega
+  rw [GenSem.implode_last _ h1 h2 h3]
+  show (i : Int) - 1 + (i : Int) - ((L : Int) + 1) = _
   omega
 
 /-- bounds of the `last` variable: the truncation can never address beyond the slice -/
@@ -1086,11 +1098,13 @@ theorem finish_eq (cfg : Cfg) (W : List Val) (hW : SmallLen W.length) (l : Int) 
     (h1 : -4611686018427387904 ≤ l) (h2 : l ≤ W.length) :
     finish cfg W l err = .ok ⟨{ cfg with err := err }, if err = none ∧ 0 ≤ l then W.take l.toNat else W⟩ := by
   have hsm := small_int hW
-  unfold finish Gen.defrag_trunc
+  have hl : InInt l := by rw [inInt_iff]; omega
+  unfold finish
+  rw [defrag_trunc_sem _ _ hl]
   cases err with
   | some e => simp
   | none =>
-    simp only [Option.isSome_none, Bool.not_false, Bool.true_and, decide_eq_true_eq, true_and]
+    simp only [Option.isSome_none, true_and, decide_eq_true_eq]
     by_cases hl : l ≥ 0
     · have : ¬ (wrap64 (l + 1) > (W.length : Int) + 1) := by rw [wrap64_eq (by omega) (by omega)]; omega
       have e : (wrap64 (l + 1) - 1).toNat = l.toNat := by rw [wrap64_eq (by omega) (by omega)]; omega
@@ -1138,17 +1152,11 @@ theorem compactV_cnd_stk (f : Form) (c : Cfg) (kw : Text) (op : Op) (f2 : Form) 
   simp only [compactV, compact, this]
   cases roCfg c2 <;> rfl
 
-theorem defragMax_pos (args : List Int) : 0 < defragMax args := by
-  unfold defragMax Gen.calculateDefragMax
-  simp only
-  split
-  · split
-    · rename_i h; simpa using h
-    · decide
-  · decide
+theorem defragMax_pos (args : List Int) : 0 < defragMax args :=
+  (GenSem.calculateDefragMax _ _).2
 
-theorem defragMax_idem (m : Int) (h : 0 < m) : defragMax [m] = m := by
-  simp [defragMax, Gen.calculateDefragMax, h]
+theorem defragMax_idem (m : Int) (h : 0 < m) : defragMax [m] = m :=
+  (GenSem.calculateDefragMax _ _).1 (by simp) h
 
 theorem mapM_ok {α β ε : Type} (f : α → Except ε β) (g : α → β) : ∀ (l : List α), (∀ a ∈ l, f a = .ok (g a)) →
     l.mapM f = .ok (l.map g) := by
